@@ -150,3 +150,30 @@ fn merge_evidence(mut e1: serde_json::Value, e2: serde_json::Value, n1: &str, n2
     e1["violations"] = ((code == 1) as u64).into();
     e1
 }
+
+/// Child-process entry points shared by all engines.
+pub fn run_trace(family: &str, path: &str, no_taint: bool) {
+    match family {
+        "replication" => check::run_trace_child::<crate::repl_engine::Repl>(path, no_taint),
+        "c06enum" => check::run_trace_child::<C06Enum>(path, no_taint),
+        "c09enum" => check::run_trace_child::<C09Enum>(path, no_taint),
+        "c12c" => check::run_trace_child::<C12c>(path, no_taint),
+        "c13" => check::run_trace_child::<C13>(path, no_taint),
+        "c14" => check::run_trace_child::<C14>(path, no_taint),
+        "c17" => check::run_trace_child::<C17>(path, no_taint),
+        _ => std::process::exit(2),
+    }
+}
+
+pub fn shrink_trace(family: &str, pin: &str, pout: &str, prop: &str, oracle: &str) {
+    match family {
+        "replication" => check::shrink_trace_child::<crate::repl_engine::Repl>(pin, pout, prop, oracle),
+        "c06enum" => check::shrink_trace_child::<C06Enum>(pin, pout, prop, oracle),
+        "c09enum" => check::shrink_trace_child::<C09Enum>(pin, pout, prop, oracle),
+        "c12c" => check::shrink_trace_child::<C12c>(pin, pout, prop, oracle),
+        "c13" => check::shrink_trace_child::<C13>(pin, pout, prop, oracle),
+        "c14" => check::shrink_trace_child::<C14>(pin, pout, prop, oracle),
+        "c17" => check::shrink_trace_child::<C17>(pin, pout, prop, oracle),
+        _ => std::process::exit(2),
+    }
+}
